@@ -89,19 +89,19 @@ def _witness_inputs(fn):
     import inspect
     params = list(inspect.signature(fn).parameters.values())
     out = []
-    for variant in (0, 1, 2):
+    for variant in (0, 1, 2, 3):
         args = []
         for j, prm in enumerate(params):
             t = prm.annotation
             ts = getattr(t, '__name__', str(t))
             if t is int or ts == 'int':
-                args.append([0, j % 3 + 1, 2 - j % 3][variant])
+                args.append([0, j % 3 + 1, 2 - j % 3, 2 ** 35 + 3 * j + 1][variant])        # the last variant: magnitudes beyond 32 bits (typed state narrower than declared shows up concretely)
             elif t is bool or ts == 'bool':
-                args.append([False, True, j % 2 == 0][variant])
+                args.append([False, True, j % 2 == 0, j % 3 == 0][variant])
             elif t is str or ts == 'str':
-                args.append(['', 'a', 'b,'][variant])
+                args.append(['', 'a', 'b,', 'é\u2028'][variant])
             elif 'Optional' in str(t):
-                args.append([None, j, 0][variant])
+                args.append([None, j, 0, 2 ** 35 + j][variant])
             else:
                 args.append(0)
         out.append(args)
